@@ -1268,6 +1268,21 @@ fn add_adversarial(r: &mut Rng, p: &mut Prog, _root: &J) {
                 };
                 lets.push(Let { name: "fe".into(), val: Arg::Func(Box::new(f)) });
                 lines.push(Line { alts: vec![Clause::Cmp(Cmp { not: false, q: q(vec![var("fe")]), op: Op::Exists, opnot: r.chance(1, 2), rhs: None, msg: None })] });
+                // ... and every function with a FIRST argument that selects nothing (an empty
+                // list, which is not the same as an unresolved value)
+                let e1 = Arg::Query(q(vec![var("e")]));
+                let f1 = match r.below(8) {
+                    0 => Func { name: "join".into(), args: vec![e1, Arg::Lit(J::Str(",".into()))] },
+                    1 => Func { name: "count".into(), args: vec![e1] },
+                    2 => Func { name: "regex_replace".into(), args: vec![e1, Arg::Lit(J::Str("a".into())), Arg::Lit(J::Str("b".into()))] },
+                    3 => Func { name: "substring".into(), args: vec![e1, Arg::Lit(J::Int(0)), Arg::Lit(J::Int(1))] },
+                    4 => Func { name: "to_upper".into(), args: vec![e1] },
+                    5 => Func { name: "json_parse".into(), args: vec![e1] },
+                    6 => Func { name: "parse_int".into(), args: vec![e1] },
+                    _ => Func { name: "url_decode".into(), args: vec![e1] },
+                };
+                lets.push(Let { name: "fe1".into(), val: Arg::Func(Box::new(f1)) });
+                lines.push(Line { alts: vec![Clause::Cmp(Cmp { not: false, q: q(vec![var("fe1")]), op: Op::Exists, opnot: r.chance(1, 2), rhs: None, msg: None })] });
             }
             13 => {
                 // a parameterised rule that calls itself (directly or through another)
